@@ -20,6 +20,7 @@ pub fn all() -> Vec<Box<dyn Engine>> {
         Box::new(compile::CmpEngine),
         Box::new(compile::WfEngine),
         Box::new(vm::VmEngine),
+        Box::new(vm::GcEngine),
         Box::new(sem::SemEngine),
     ]
 }
